@@ -444,8 +444,8 @@ func init() {
 			return cond + "/memory-not-proportional-to-input", "Load exhausted the worker's address-space limit while loading the index's own output (allocation sized by a number read from the stream) [" + cond + "]"
 		},
 		MemLimit: 2 << 30,
-		Gen:    genC08,
-		Exec:   withSample(genC08, execC08),
-		Shrink: shrinkC08,
+		Gen:      genC08,
+		Exec:     withSample(genC08, execC08),
+		Shrink:   shrinkC08,
 	})
 }
